@@ -12,7 +12,7 @@ use serde_json::json;
 
 const RULE: &str = "grammar structures from choice streams (every declaration kind, every regex operator nested to depth <= 5, ordered choice, predicates/actions/assertions/markers/creations with multi-digit numbers, renames, symbols containing escaped quotes, backslashes, spaces, `<class>` and non-ASCII characters, shuffled and split declarations) x 3 random legal layouts each (arbitrary whitespace, line/doc/block comments in every gap; separators only where two lexemes would fuse by a punctuation whitelist). Oracle: no diagnostic from lexing/parsing, and the front end's typed view walked into a grammar model equals the model that was written (declarations in order, token symbols, skip/right/part lists, rule names and ^ flags, bodies with every operator, parentheses preserved, numbers, names); since the printer parenthesises only where its own precedence table demands, equality verifies postfix > concatenation > ordered choice > alternation. non-trivial = a rule body mixing >= 3 precedence levels (approximated: grammar contains alternation, ordered choice or concatenation under a postfix operator); distinct = the laid-out text";
 
-const SYMS: &[&str] = &["\\'", "\\\\", "a b", "<int>", "é", "+=", "\\'\\\\\\'", "/*", "//", "😀!", "<"];
+const SYMS: &[&str] = &["\\'", "\\\\", "a b", "<int>", "é", "+=", "\\'\\\\\\'", "/*", "//", "😀!", "<", "\"", "{", "}{}", "\\\\n", "{0}", "%s", "\\\\"];
 
 /// make symbols and numbers harder
 pub fn toughen(g: &mut Grammar, d: &mut Dice<'_>) {
